@@ -20,7 +20,7 @@ PROPS = {
     "C09": dict(fams=[("seqgrid", 40, 2000), ("tbsgrid", 0, 0), ("hdrgrid", 0, 0), ("reenc", 4000, 400000)]),
     "C10": dict(fams=[("tbsgrid", 0, 0), ("cs", 4000, 300000), ("dec", 1500, 60000)], real=[("bigprot", 1, 1)]),
     "C11": dict(fams=[("signgrid", 0, 0), ("seqgrid", 20, 1000), ("sm", 600, 60000), ("vm", 600, 60000)]),
-    "C12": dict(fams=[("he", 3000, 200000)]),
+    "C12": dict(fams=[("taggrid", 0, 0), ("he", 3000, 200000)]),
     "C13": dict(fams=[("seqgrid", 40, 2000), ("tbsgrid", 0, 0), ("taggrid", 0, 0), ("hdrgrid", 0, 0), ("enc", 1000, 100000), ("dechdr", 1000, 100000), ("hacc", 400, 20000)]),
     "C14": dict(fams=[("encgrid", 0, 0), ("keyrt", 600, 30000), ("keygrid", 300, 30000)], real=[("keysv", 60, 3000)]),
     "C15": dict(fams=[("keygrid", 1500, 150000), ("taggrid", 0, 0)]),
